@@ -989,3 +989,29 @@ func init() {
 		return sc
 	}
 }
+
+func init() {
+	// burst2: two bursts separated by an idle gap, with keepalive pings
+	// (which consume sequence numbers) going out during the gap; the ping
+	// interval is below the resend timeout, so a ping can overtake the
+	// retransmission of a lost DATA packet.
+	builders["burst2"] = func(name string, p params) *Scenario {
+		sc := &Scenario{}
+		common(sc, p)
+		sc.PingC, sc.PongC = p.dur("pingc", 500*time.Millisecond), 3*time.Second
+		sc.PingS, sc.PongS = p.dur("pings", 700*time.Millisecond), 3*time.Second
+		k := p.int("k", 2)
+		ops := sends('c', k, -1)
+		ops = append(ops, Op{Kind: "sleep", D: p.dur("gap", 3*time.Second)})
+		for i := 0; i < k; i++ {
+			ops = append(ops, Op{Kind: "send", Data: payload('d', i, -1)})
+		}
+		sc.ClientScripts = [][]Op{ops}
+		sc.ServerScripts = [][]Op{recvs(2 * k)}
+		sc.Monitors = append(sc.Monitors, monPrefix)
+		sc.Final = append(sc.Final, finalAllDelivered)
+		sc.Cfg.Horizon = 90 * time.Second
+		sc.Cfg.DrainTime = 10 * time.Second
+		return sc
+	}
+}
